@@ -1,5 +1,6 @@
 import BHS.Props.C03
 import BHS.Props.SqlShape.Add
+import BHS.Props.RepoWritesGen
 open BHS.Props.C03
 #print axioms C03_stored_row
 #print axioms C03_work_exact
@@ -13,3 +14,5 @@ open BHS.Props.C03
 #print axioms C03_derived_all
 #print axioms C03_sql_writes
 #print axioms BHS.Props.SqlShape.add_statements
+#print axioms BHS.Props.RepoWritesGen.Gen_AddHeaderToDatabase_refines
+#print axioms BHS.Props.RepoWritesGen.AddHeaderToDatabase_atomic
